@@ -7,16 +7,22 @@ import SalsaVerif.Proofs.CycleSound
 namespace SalsaVerif.Proofs.Cycle
 open SalsaVerif.Model.Cycle
 
+/-- the assignment under which every gate is closed: `callees env ρ0 ρ0 e` is the callee list of
+    a gate-free body `e` (for which the assignment is irrelevant, `callees_noGate`).  The
+    fallback theorems are proved for gate-free programs (`Prog.NoGate`). -/
+def ρ0 : Nat → Nat := fun _ => 0
+
 section
 variable (P : Prog) (env : Nat → Nat)
 
-/-- `Reach a b`: a non-empty path from `a` to `b` in the input-determined call graph. -/
+/-- `Reach a b`: a non-empty path from `a` to `b` in the input-determined call graph (the graph
+    of a gate-free program). -/
 inductive Reach : Nat → Nat → Prop where
-  | step {a c : Nat} : c ∈ callees env (P.node a).body → Reach a c
+  | step {a c : Nat} : c ∈ callees env ρ0 (P.node a).body → Reach a c
   | trans {a b c : Nat} : Reach a b → Reach b c → Reach a c
 
 /-- the Boolean `reach` of the model (paths of bounded length) is sound for `Reach`. -/
-theorem reach_sound : ∀ (k a b : Nat), reach P env k a b = true → Reach P env a b := by
+theorem reach_sound : ∀ (k a b : Nat), reach P env ρ0 k a b = true → Reach P env a b := by
   intro k
   induction k with
   | zero => intro a b h; simp [reach] at h
@@ -28,14 +34,14 @@ theorem reach_sound : ∀ (k a b : Nat), reach P env k a b = true → Reach P en
     · subst h; exact Reach.step hc
     · exact Reach.trans (Reach.step hc) (ih c b h)
 
-theorem onCycle_sound (i : Nat) (h : onCycle P env i = true) : Reach P env i i :=
+theorem onCycle_sound (i : Nat) (h : onCycle P env ρ0 i = true) : Reach P env i i :=
   reach_sound P env _ i i h
 
 /-- the active stack (innermost first) is a call chain. -/
 def Chain : List Nat → Prop
   | [] => True
   | [_] => True
-  | a :: b :: rest => a ∈ callees env (P.node b).body ∧ Chain (b :: rest)
+  | a :: b :: rest => a ∈ callees env ρ0 (P.node b).body ∧ Chain (b :: rest)
 
 theorem Chain.tail {a : Nat} {l : List Nat} (h : Chain P env (a :: l)) : Chain P env l := by
   cases l with
@@ -415,7 +421,7 @@ theorem completeF_converged (s1 : St) (j : Nat) (rest : List Nat) (last : Nat)
 
 /-- the top active query (if any) calls `c`. -/
 def TopCalls (s : St) (c : Nat) : Prop :=
-  ∀ t, s.stack.head? = some t → c ∈ callees env (P.node t).body
+  ∀ t, s.stack.head? = some t → c ∈ callees env ρ0 (P.node t).body
 
 def ReadSpecF (read : Nat → St → Res Fetched) : Prop :=
   ∀ c s v hs s', InvF P env s → TopCalls P env s c → read c s = .ok (v, hs, s') →
@@ -430,31 +436,31 @@ def ExecSpecF (exec : Nat → St → Res Fetched) : Prop :=
     (∀ k ∈ hs, k ∈ s.stack ∧ Reach P env j k)
 
 theorem evalM_specF {read : Nat → St → Res Fetched} (hR : ReadSpecF P env read) :
-    ∀ (e : Expr) (s : St) (v : Nat) (hs : List Nat) (s' : St), InvF P env s →
-      (∀ c ∈ callees env e, TopCalls P env s c) →
+    ∀ (e : Expr), e.noGate = true → ∀ (s : St) (v : Nat) (hs : List Nat) (s' : St), InvF P env s →
+      (∀ c ∈ callees env ρ0 e, TopCalls P env s c) →
       evalM env read e s = .ok (v, hs, s') →
       InvF P env s' ∧ s'.stack = s.stack ∧ Ext s s' ∧ EvalRel env (Avail s') e v ∧
       s'.iters = s.iters ∧
-      (∀ k ∈ hs, k ∈ s.stack ∧ ∃ c ∈ callees env e, k = c ∨ Reach P env c k) ∧
-      (∀ c ∈ callees env e, c ∈ s.stack → c ∈ hs ∧ isHead s'.prov c = true) := by
+      (∀ k ∈ hs, k ∈ s.stack ∧ ∃ c ∈ callees env ρ0 e, k = c ∨ Reach P env c k) ∧
+      (∀ c ∈ callees env ρ0 e, c ∈ s.stack → c ∈ hs ∧ isHead s'.prov c = true) := by
   intro e
   induction e with
   | const c =>
-    intro s v hs s' hI _ h
+    intro _ s v hs s' hI _ h
     simp only [evalM] at h
     injection h with h; injection h with h1 h; injection h with h2 h3
     subst h1; subst h2; subst h3
     exact ⟨hI, rfl, Ext.refl _, rfl, rfl, (fun k hk => nomatch hk),
       (fun c hc => by simp [callees] at hc)⟩
   | input i =>
-    intro s v hs s' hI _ h
+    intro _ s v hs s' hI _ h
     simp only [evalM] at h
     injection h with h; injection h with h1 h; injection h with h2 h3
     subst h1; subst h2; subst h3
     exact ⟨hI, rfl, Ext.refl _, rfl, rfl, (fun k hk => nomatch hk),
       (fun c hc => by simp [callees] at hc)⟩
   | call j =>
-    intro s v hs s' hI hT h
+    intro _ s v hs s' hI hT h
     simp only [evalM] at h
     cases hr : read j s with
     | error e => rw [hr] at h; cases h
@@ -473,7 +479,10 @@ theorem evalM_specF {read : Nat → St → Res Fetched} (hR : ReadSpecF P env re
         simp only [callees, List.mem_singleton] at hc
         subst hc; exact hon hcs
   | union a b iha ihb =>
-    intro s v hs s' hI hT h
+    intro hng s v hs s' hI hT h
+    simp only [Expr.noGate, Bool.and_eq_true] at hng
+    have iha := iha hng.1
+    have ihb := ihb hng.2
     simp only [evalM] at h
     cases ha : evalM env read a s with
     | error e => rw [ha] at h; cases h
@@ -490,7 +499,7 @@ theorem evalM_specF {read : Nat → St → Res Fetched} (hR : ReadSpecF P env re
         subst e1; subst e2; subst e3
         obtain ⟨hI1, hst1, hE1, hA1, hit1, hh1, hon1⟩ := iha s x h1 s1 hI
           (fun c hc => hT c (by simp [callees, hc])) ha
-        have hT2 : ∀ c ∈ callees env b, TopCalls P env s1 c := by
+        have hT2 : ∀ c ∈ callees env ρ0 b, TopCalls P env s1 c := by
           intro c hc t ht
           rw [hst1] at ht
           exact hT c (by simp [callees, hc]) t ht
@@ -512,7 +521,10 @@ theorem evalM_specF {read : Nat → St → Res Fetched} (hR : ReadSpecF P env re
           · obtain ⟨p1, p2⟩ := hon2 c hc (by rw [hst1]; exact hcs)
             exact ⟨List.mem_append_right _ p1, p2⟩
   | inter a b iha ihb =>
-    intro s v hs s' hI hT h
+    intro hng s v hs s' hI hT h
+    simp only [Expr.noGate, Bool.and_eq_true] at hng
+    have iha := iha hng.1
+    have ihb := ihb hng.2
     simp only [evalM] at h
     cases ha : evalM env read a s with
     | error e => rw [ha] at h; cases h
@@ -529,7 +541,7 @@ theorem evalM_specF {read : Nat → St → Res Fetched} (hR : ReadSpecF P env re
         subst e1; subst e2; subst e3
         obtain ⟨hI1, hst1, hE1, hA1, hit1, hh1, hon1⟩ := iha s x h1 s1 hI
           (fun c hc => hT c (by simp [callees, hc])) ha
-        have hT2 : ∀ c ∈ callees env b, TopCalls P env s1 c := by
+        have hT2 : ∀ c ∈ callees env ρ0 b, TopCalls P env s1 c := by
           intro c hc t ht
           rw [hst1] at ht
           exact hT c (by simp [callees, hc]) t ht
@@ -551,7 +563,10 @@ theorem evalM_specF {read : Nat → St → Res Fetched} (hR : ReadSpecF P env re
           · obtain ⟨p1, p2⟩ := hon2 c hc (by rw [hst1]; exact hcs)
             exact ⟨List.mem_append_right _ p1, p2⟩
   | ite i a b iha ihb =>
-    intro s v hs s' hI hT h
+    intro hng s v hs s' hI hT h
+    simp only [Expr.noGate, Bool.and_eq_true] at hng
+    have iha := iha hng.1
+    have ihb := ihb hng.2
     simp only [evalM] at h
     simp only [EvalRel, callees] at hT ⊢
     split at h
@@ -561,6 +576,7 @@ theorem evalM_specF {read : Nat → St → Res Fetched} (hR : ReadSpecF P env re
     · rename_i hc
       simp only [if_neg hc] at hT ⊢
       exact ihb s v hs s' hI hT h
+  | gate g a _ _ => intro hng; simp [Expr.noGate] at hng
 
 theorem cycleInitial_fb {P : Prog} {c fv : Nat} (h : (P.node c).strat = .fallback fv) :
     cycleInitial P c = fallbackValue P c ∧ fallbackValue P c = fv % 256 := by
@@ -602,7 +618,7 @@ theorem fetchColdCycle_specF (hNX : NoFixpoint P) (c : Nat) (s : St) (v : Nat) (
         cases hstk : s.stack with
         | nil => rw [hstk] at hc; cases hc
         | cons t rest =>
-          have ht : c ∈ callees env (P.node t).body := hT t (by rw [hstk]; rfl)
+          have ht : c ∈ callees env ρ0 (P.node t).body := hT t (by rw [hstk]; rfl)
           rw [hstk] at hc
           cases hc with
           | head => exact Reach.step ht
@@ -696,15 +712,15 @@ theorem fetch_specF (hNX : NoFixpoint P) {exec : Nat → St → Res Fetched}
             fun hcs => absurd hcs hc'⟩
 
 /-- the head loop for fallback programs: one pass, no iteration. -/
-theorem loop_specF (hNX : NoFixpoint P) {read : Nat → St → Res Fetched}
+theorem loop_specF (hNX : NoFixpoint P) (hG : P.NoGate) {read : Nat → St → Res Fetched}
     (hR : ReadSpecF P env read) (j : Nat) (s0 : St)
     (hs0 : ¬ HeadOn s0 → s0.cache = [] ∧ s0.prov = [])
     (fuel stamp : Nat) (s : St) (v : Nat) (hs : List Nat) (s' : St)
     (hI : InvF P env s) (hst : s.stack = j :: s0.stack) (hE0 : Ext s0 s)
-    (h : executeMaybeIterate P env read j false fuel stamp s = .ok (v, hs, s')) :
+    (h : executeMaybeIterate P env read j fuel stamp s = .ok (v, hs, s')) :
     InvF P env s' ∧ s'.stack = s0.stack ∧ Ext s0 s' ∧ Avail s' j v ∧ s'.iters = s.iters ∧
     (∀ k ∈ hs, k ∈ s0.stack ∧ Reach P env j k) ∧
-    ((∃ c ∈ callees env (P.node j).body, c ∈ s.stack) →
+    ((∃ c ∈ callees env ρ0 (P.node j).body, c ∈ s.stack) →
       ∀ fv, (P.node j).strat = .fallback fv → v = fv % 256) := by
   cases fuel with
   | zero => simp [executeMaybeIterate] at h
@@ -715,13 +731,13 @@ theorem loop_specF (hNX : NoFixpoint P) {read : Nat → St → Res Fetched}
     | ok r =>
       obtain ⟨v1, hs1, s1⟩ := r
       rw [hev] at h
-      simp only [Bool.not_false, Bool.true_and] at h
-      have hT : ∀ c ∈ callees env (P.node j).body, TopCalls P env s c := by
+      simp only at h
+      have hT : ∀ c ∈ callees env ρ0 (P.node j).body, TopCalls P env s c := by
         intro c hc t ht
         rw [hst] at ht
         injection ht with ht; subst ht; exact hc
       obtain ⟨hI1, hst1, hE1, hrel, hit1, hh1, hon1⟩ :=
-        evalM_specF P env hR _ s v1 hs1 s1 hI hT hev
+        evalM_specF P env hR _ (noGate_node hG j) s v1 hs1 s1 hI hT hev
       have hst1' : s1.stack = j :: s0.stack := hst1.trans hst
       have htail : s1.stack.tail = s0.stack := by rw [hst1']; rfl
       have hE01 : Ext s0 s1 := hE0.trans hE1
@@ -857,7 +873,7 @@ theorem inv_pushF {s : St} {j : Nat} (hI : InvF P env s) (hj : j ∉ s.stack)
     obtain ⟨p1, p2⟩ := hI.heads y e hy k hk
     exact ⟨List.mem_cons_of_mem _ p1, p2⟩
 
-theorem execute_specF (hNX : NoFixpoint P) : ∀ d, ExecSpecF P env (execute P env d) := by
+theorem execute_specF (hNX : NoFixpoint P) (hG : P.NoGate) : ∀ d, ExecSpecF P env (execute P env d) := by
   intro d
   induction d with
   | zero => intro j s v hs s' _ _ _ _ _ h; simp [execute] at h
@@ -865,7 +881,7 @@ theorem execute_specF (hNX : NoFixpoint P) : ∀ d, ExecSpecF P env (execute P e
     intro j s v hs s' hI hj hf hc hT h
     unfold execute at h
     obtain ⟨h1, h2, h3, h4, h5, h6, _⟩ :=
-      loop_specF P env hNX (fetch_specF P env hNX ih) j s hI.empty loopFuel _ _ v hs s'
+      loop_specF P env hNX hG (fetch_specF P env hNX ih) j s hI.empty loopFuel _ _ v hs s'
         (inv_pushF P env hI hj hf hc hT) rfl ⟨rfl, fun _ _ h => h, fun _ _ h => h, fun _ _ h => h⟩ h
     exact ⟨h1, h2, h3, h4, h5, h6⟩
 
@@ -888,13 +904,13 @@ theorem inv_initF {final : List (Nat × Nat)} (h : DbOkF P env final) (poisoned 
   · intro c v hv; simp [cval, St.init] at hv
 
 /-- soundness of a top-level request of a fallback program. -/
-theorem eval_soundF (hNX : NoFixpoint P) {final : List (Nat × Nat)} (hdb : DbOkF P env final)
+theorem eval_soundF (hNX : NoFixpoint P) (hG : P.NoGate) {final : List (Nat × Nat)} (hdb : DbOkF P env final)
     (poisoned : List Nat) (j v : Nat) (s : St)
     (h : eval P env final poisoned j = .ok (v, s)) :
     s.final.lookup j = some v ∧ DbOkF P env s.final ∧
     s.stack = [] ∧ s.prov = [] ∧ s.cache = [] ∧ s.iters = 0 ∧
     (∀ c w, final.lookup c = some w → s.final.lookup c = some w) ∧
-    (final.lookup j = none → j ∈ callees env (P.node j).body →
+    (final.lookup j = none → j ∈ callees env ρ0 (P.node j).body →
       ∀ fv, (P.node j).strat = .fallback fv → v = fv % 256) := by
   unfold eval at h
   cases hf : fetch P (execute P env (P.n + 1)) j (St.init final poisoned) with
@@ -907,7 +923,7 @@ theorem eval_soundF (hNX : NoFixpoint P) {final : List (Nat × Nat)} (hdb : DbOk
     have hT : TopCalls P env (St.init final poisoned) j := by
       intro t ht; cases ht
     obtain ⟨hI, hst, hE, hA, hit, _, _⟩ :=
-      fetch_specF P env hNX (execute_specF P env hNX (P.n + 1)) j _ v1 hs1 s1
+      fetch_specF P env hNX (execute_specF P env hNX hG (P.n + 1)) j _ v1 hs1 s1
         (inv_initF P env hdb poisoned) hT hf
     have hst' : s1.stack = [] := hst
     have hno : ¬ HeadOn s1 := by
@@ -935,7 +951,7 @@ theorem eval_soundF (hNX : NoFixpoint P) {final : List (Nat × Nat)} (hdb : DbOk
       simpa using hf
     unfold execute at hf'
     obtain ⟨_, _, _, _, _, _, hP2⟩ :=
-      loop_specF P env hNX (fetch_specF P env hNX (execute_specF P env hNX P.n)) j
+      loop_specF P env hNX hG (fetch_specF P env hNX (execute_specF P env hNX hG P.n)) j
         (St.init final poisoned) (inv_initF P env hdb poisoned).empty loopFuel _ _ v1 hs1 s1
         (inv_pushF P env (inv_initF P env hdb poisoned) (by simp [St.init]) h2 h4 hT) rfl
         ⟨rfl, fun _ _ h => h, fun _ _ h => h, fun _ _ h => h⟩ hf'
@@ -950,7 +966,8 @@ theorem dbOkF_nil (P : Prog) (env : Nat → Nat) : DbOkF P env [] :=
 def results (s : St) : Nat → Nat := fun c => (s.final.lookup c).getD 0
 
 /-- justified databases are preserved by requests (successful or panicking). -/
-theorem dbOkF_gets (P : Prog) (env : Nat → Nat) (hNX : NoFixpoint P) (js : List Nat) :
+theorem dbOkF_gets (P : Prog) (env : Nat → Nat) (hNX : NoFixpoint P) (hG : P.NoGate)
+    (js : List Nat) :
     ∀ db : Db, DbOkF P env db.final → DbOkF P env (gets P env db js).final := by
   induction js with
   | nil => intro db h; exact h
@@ -962,6 +979,6 @@ theorem dbOkF_gets (P : Prog) (env : Nat → Nat) (hNX : NoFixpoint P) (js : Lis
     | error e => exact h
     | ok r =>
       obtain ⟨v, s⟩ := r
-      exact (eval_soundF P env hNX h db.poisoned j v s he).2.1
+      exact (eval_soundF P env hNX hG h db.poisoned j v s he).2.1
 
 end SalsaVerif.Proofs.Cycle
